@@ -73,6 +73,8 @@ impl Group {
         let h = rng.range(2, 5000);
         let t = rng.range(1_500_000_000, 1_900_000_000);
         let mut w = World::new(h, t);
+        let (fb, fs) = rng.far_future();
+        w.advance(fb, fs);
         w.block.time = w.block.time.plus_nanos(rng.below(1_000_000_000));
         Group { w }
     }
